@@ -187,6 +187,14 @@ def tree_params(r, algo, n):
         p["delta"] = loguniform(r, 0.001, 0.9)
     if algo == "VHCT":
         p["bound"] = loguniform(r, 0.1, 3)
+    if r.random() < 0.08:
+        # corners of the documented ranges: nu tiny or huge, rho close to 0 or to 1, delta close to 1, c large
+        # (delta-tilde above 1 before its cap, thresholds of 1e12 pulls or of 0, truncation depths <= 0 or in the hundreds)
+        ext = {"nu": [1e-6, 1e-3, 0.01, 100.0, 1e4], "rho": [0.01, 0.02, 0.98, 0.99], "delta": [0.9, 0.99, 0.999, 1e-6],
+               "c": [5.0, 20.0, 0.005], "bound": [0.01, 50.0]}
+        for k in list(p):
+            if k in ext and r.random() < 0.5:
+                p[k] = r.choice(ext[k])
     return p
 
 
